@@ -50,3 +50,46 @@ Theorem c02_length_fields_wide :
   fsz_libwifi_frame__len = host_sizeof_size_t /\ fsz_libwifi_frame__header_len = host_sizeof_size_t /\ 8 <= host_sizeof_size_t.
 Proof. repeat split; try reflexivity; try (vm_compute; discriminate). Qed.
 Print Assumptions c02_length_fields_wide.
+
+(* ---- libwifi_get_wifi_frame AS TRANSLATED from frame.c on this run (Gen/Sites.v), without radiotap, run with ONLY the frame readable and NOTHING assumed about
+   the prior contents of the frame object (the translated memset zeroes it): it is never stuck, refuses exactly what the model refuses having done nothing but the
+   memset, and otherwise leaves the model's lengths and flags and copies exactly the model's body.  frame_run, frame_memset, hdr_copies, body_events, copies_inside,
+   frame_refused are defined in Proofs/CodeFrame.v. ---- *)
+From Coq Require Import String.
+From LW Require Import Base.Bytes Base.CExpr Gen.Sites Spec.CodeSpec Model.Frame Proofs.CodeFrame.
+Local Open Scope string_scope.
+Local Open Scope Z_scope.
+
+(* the model does not model the allocator: where it answers Ok f, the C code returns 0, except -12 when the body is not empty and
+   malloc answered 0 *)
+Theorem c02_code_get_wifi_frame_refines_model : forall buf a rho,
+  wfbytes buf -> 0 < a -> a + zlen buf < 2 ^ 62 -> 0 <= rho "ret:malloc" < 2 ^ 62 ->
+  let q := rho "ret:malloc" in
+  match get_wifi_frame (rd_strict buf) (zlen buf) false with
+  | Done (Err c) => c = -22 /\ observe (frame_run buf a rho) = Some (Some c, [frame_memset rho])
+  | Done (Ok f) =>
+      let bl := zlen (f_body f) in
+      let tr := (frame_memset rho :: hdr_copies rho a (znth buf 0) (znth buf 1) ++
+                 ("memcpy", [wrap u64 (rho "&fi->frame_control"); a; 2]) :: body_events q a (f_header_len f) bl)%list in
+      exists rho1,
+        frame_run buf a rho = Returned (Some (if (0 <? bl) && (q =? 0) then -12 else 0)) rho1 tr /\
+        rho1 "fi->len" = f_len f /\ rho1 "fi->header_len" = f_header_len f /\ rho1 "fi->flags" = f_flags f /\
+        bl = f_len f - f_header_len f /\ f_len f = zlen buf /\
+        f_header f = zfirstn (f_header_len f) buf /\ f_body f = zskipn (f_header_len f) buf /\
+        copies_inside a (a + zlen buf) tr
+  | _ => False
+  end.
+Proof. exact code_get_wifi_frame_refines_model. Qed.
+Print Assumptions c02_code_get_wifi_frame_refines_model.
+
+(* the run is never stuck, and returns -22 (-EINVAL) exactly on the refused inputs, having called nothing but the initial memset;
+   the other return values are 0 and -12 (-ENOMEM: the allocator answered 0 for a non-empty body) *)
+Theorem c02_code_get_wifi_frame_plain_ret : forall buf a rho,
+  wfbytes buf -> 0 < a -> a + zlen buf < 2 ^ 62 -> 0 <= rho "ret:malloc" < 2 ^ 62 ->
+  exists v tr,
+    observe (frame_run buf a rho) = Some (Some v, tr) /\
+    (v = -22 <-> frame_refused buf) /\ (v = -22 -> tr = [frame_memset rho]) /\ (v = -22 \/ v = -12 \/ v = 0) /\
+    copies_inside a (a + zlen buf) tr.
+Proof. exact code_get_wifi_frame_plain_ret. Qed.
+Print Assumptions c02_code_get_wifi_frame_plain_ret.
+
